@@ -1,5 +1,5 @@
 import Canopy.Proof.StoreState
-import Canopy.Proof.Indexer
+import Canopy.Proof.IndexerCache
 import Canopy.Gen.Store
 import Canopy.Props.C19
 /-!
@@ -287,90 +287,135 @@ theorem index_history_immutable (K IK : Bytes → Prop) (hK : WFKeys K) (hIK : W
   have hmv : maxVer = 18446744073709551615 := rfl
   exact iview_agree hIK hi'.idx hi.idx (by omega) (by omega) (by omega) hag hpfx
 
-/-- **`block_history_immutable`** (database part): the block at any height — by height and by hash,
-header, hash and transaction list — as read by a view at committed version `v`, bypassing the cache -/
-theorem block_history_immutable (K IK : Bytes → Prop) (hK : WFKeys K) (hIK : WFKeys IK) (mode : CacheKeying)
-    (hpfx : ∀ h, PfxOK IK (txHeightKey h)) (s : IState) (m : VMap) (hi : IInv K IK s m) (ops : List IOp)
-    (hops : ∀ op ∈ ops, IOpOK K IK op) (hver : s.st.version + ops.length + 1 < maxVer)
-    (v : Nat) (hv : v ≤ s.st.version) (hkeep : ∀ op ∈ ops, IKeeps v op) (h : Nat) (hash : Bytes) :
-    ((runIOps mode s ops).ro v).dbBlockByHeight h = (s.ro v).dbBlockByHeight h ∧
-    ((runIOps mode s ops).ro v).getBlockByHash hash = (s.ro v).getBlockByHash hash :=
-  have r := index_history_immutable K IK hK hIK mode hpfx s m hi ops hops hver v hv hkeep
-  ⟨r.2.2.2.1 h, r.2.2.2.2.2.1 hash⟩
-
-/-- **`qc_history_immutable`**: the quorum certificate of any height as read by a view at `v` -/
-theorem qc_history_immutable (K IK : Bytes → Prop) (hK : WFKeys K) (hIK : WFKeys IK) (mode : CacheKeying)
-    (hpfx : ∀ h, PfxOK IK (txHeightKey h)) (s : IState) (m : VMap) (hi : IInv K IK s m) (ops : List IOp)
-    (hops : ∀ op ∈ ops, IOpOK K IK op) (hver : s.st.version + ops.length + 1 < maxVer)
-    (v : Nat) (hv : v ≤ s.st.version) (hkeep : ∀ op ∈ ops, IKeeps v op) (h : Nat) :
-    ((runIOps mode s ops).ro v).dbQCByHeight h = (s.ro v).dbQCByHeight h :=
-  (index_history_immutable K IK hK hIK mode hpfx s m hi ops hops hver v hv hkeep).2.2.2.2.1 h
-
 /-- the real index keys (32-byte hashes) satisfy the hypotheses -/
 theorem index_keys_wf : WFKeys IdxKey ∧ ∀ h, PfxOK IdxKey (txHeightKey h) := ⟨idxKey_wf, idxKey_pfx⟩
 
-/-! ### through the cache the property FAILS
+/-! ### through the cache: full strength on the code as it stands
 
-The full-strength statement — `GetBlockByHeight` *as the API answers it*, i.e. through `blockCache`,
-is unchanged — is false of the code. What holds: -/
+`Disc s op` / `DiscRun K s ops` (`Proof/IndexerCache.lean`) is what the node's commit path guarantees
+about a history: a block is indexed once per commit, for the next height, under a hash that no stored
+or cached block uses, with 32-byte pairwise distinct transaction hashes not indexed before (block and
+transaction hashes identify their content; `CommitCertificate` indexes exactly one block per commit);
+heights and versions are `uint64`. Reads, quorum certificates, abandoned commits (`Reset`), cache
+purges, rollbacks and every store operation are unrestricted. -/
 
-/-- `GetBlockByHeight` of a view at `v`, as answered, is unchanged between two states -/
-def BlockReadStable (s s' : IState) (v h : Nat) : Prop :=
-  (getBlockByHeight s'.cache (s'.ro v) h).1 = (getBlockByHeight s.cache (s.ro v) h).1
+/-- every state a disciplined history reaches satisfies the process invariant `CInv`: C10's store
+invariant, the index partition's representation and discipline (`DBDisc`), cache coherence (`CacheOK`:
+a cached block whose header is committed is the block the database part assembles) and the shape of the
+pending index operations (`PendOK`) -/
+theorem reachable_cinv (K : Bytes → Prop) (hK : WFKeys K) (ops : List IOp) (hd : DiscRun K {} ops)
+    (hb : ops.length + 1 < maxVer) : ∃ m pb, CInv K (runIOps .byHashKey {} ops) m pb :=
+  ((CInv.init K).run hK ops hd (by simpa using hb)).1
 
-instance (s s' : IState) (v h : Nat) : Decidable (BlockReadStable s s' v h) := by
+/-- **the block cache is transparent**: on every reachable state, `GetBlockByHeight` and
+`GetQCByHeight` of a read-only view answer — through the process-wide cache — exactly what the view's
+own database part says: never a block the view has not committed, never a stale or truncated one -/
+theorem block_cache_transparent (K : Bytes → Prop) (s : IState) (m : VMap) (pb : Option (Bytes × List Bytes))
+    (hi : CInv K s m pb) (v h : Nat) (hv : v ≤ maxVer) (hh : h < B64) :
+    (getBlockByHeight cacheKeyingOfSource s.cache (s.ro v) h).1 = (s.ro v).dbBlockByHeight h ∧
+    (getQCByHeight cacheKeyingOfSource s.cache (s.ro v) h).1 =
+      (((s.ro v).dbQCByHeight h).1, ((s.ro v).dbQCByHeight h).2, (s.ro v).dbBlockByHeight h) := by
+  rw [cache_keying_is_by_hash_key]
+  exact hi.transparent hv hh
+
+/-- **`block_history_immutable`**, full strength, through the cache: for every `v` ≤ the committed
+version and every later disciplined history — indexing, commits, abandoned commits, reads by any view
+(which fill the cache), cache purges, rollbacks to heights ≥ `v`, any store operations — what
+`GetBlockByHeight` answers to a read-only view at `v`, for every height, and what `GetBlockByHash`
+answers, is what it answered before. -/
+theorem block_history_immutable (K : Bytes → Prop) (hK : WFKeys K) (s : IState) (m : VMap)
+    (pb : Option (Bytes × List Bytes)) (hi : CInv K s m pb) (ops : List IOp) (hd : DiscRun K s ops)
+    (hver : s.st.version + ops.length + 1 < maxVer) (v : Nat) (hv : v ≤ s.st.version)
+    (hkeep : ∀ op ∈ ops, IKeeps v op) (h : Nat) (hh : h < B64) (hash : Bytes) :
+    (getBlockByHeight cacheKeyingOfSource (runIOps cacheKeyingOfSource s ops).cache ((runIOps cacheKeyingOfSource s ops).ro v) h).1 =
+      (getBlockByHeight cacheKeyingOfSource s.cache (s.ro v) h).1 ∧
+    ((runIOps cacheKeyingOfSource s ops).ro v).getBlockByHash hash = (s.ro v).getBlockByHash hash := by
+  rw [cache_keying_is_by_hash_key]
+  obtain ⟨⟨m', pb', hi'⟩, hops⟩ := hi.run hK ops hd hver
+  have hvm : v ≤ maxVer := by have := hi.inv.st.rep.ver_lt; omega
+  have hdb := index_history_immutable K IdxKey hK idxKey_wf .byHashKey idxKey_pfx s m hi.inv ops hops hver v hv hkeep
+  rw [(hi'.transparent hvm hh).1, (hi.transparent hvm hh).1]
+  exact ⟨hdb.2.2.2.1 h, hdb.2.2.2.2.2.1 hash⟩
+
+/-- **`qc_history_immutable`**, full strength: what `GetQCByHeight` answers to a read-only view at `v`
+— the certificate and the block attached to it through the cache -/
+theorem qc_history_immutable (K : Bytes → Prop) (hK : WFKeys K) (s : IState) (m : VMap)
+    (pb : Option (Bytes × List Bytes)) (hi : CInv K s m pb) (ops : List IOp) (hd : DiscRun K s ops)
+    (hver : s.st.version + ops.length + 1 < maxVer) (v : Nat) (hv : v ≤ s.st.version)
+    (hkeep : ∀ op ∈ ops, IKeeps v op) (h : Nat) (hh : h < B64) :
+    (getQCByHeight cacheKeyingOfSource (runIOps cacheKeyingOfSource s ops).cache ((runIOps cacheKeyingOfSource s ops).ro v) h).1 =
+      (getQCByHeight cacheKeyingOfSource s.cache (s.ro v) h).1 := by
+  rw [cache_keying_is_by_hash_key]
+  obtain ⟨⟨m', pb', hi'⟩, hops⟩ := hi.run hK ops hd hver
+  have hvm : v ≤ maxVer := by have := hi.inv.st.rep.ver_lt; omega
+  have hdb := index_history_immutable K IdxKey hK idxKey_wf .byHashKey idxKey_pfx s m hi.inv ops hops hver v hv hkeep
+  rw [(hi'.transparent hvm hh).2, (hi.transparent hvm hh).2, hdb.2.2.2.1 h, hdb.2.2.2.2.1 h]
+
+/-! ### the cache as it was (keyed by height, consulted before the view): the property failed -/
+
+/-- `GetBlockByHeight` of a view at `v`, as answered under a cache keying, is unchanged between two states -/
+def BlockReadStable (mode : CacheKeying) (s s' : IState) (v h : Nat) : Prop :=
+  (getBlockByHeight mode s'.cache (s'.ro v) h).1 = (getBlockByHeight mode s.cache (s.ro v) h).1
+
+instance (mode : CacheKeying) (s s' : IState) (v h : Nat) : Decidable (BlockReadStable mode s s' v h) := by
   unfold BlockReadStable; infer_instance
-
-/-- **`block_history_immutable_partial`**: when the cache holds nothing for that height in either state
-the answer is the database part, hence unchanged (the excluded region — a cache entry for the height —
-is exactly where the witnesses below live) -/
-theorem block_history_immutable_partial (K IK : Bytes → Prop) (hK : WFKeys K) (hIK : WFKeys IK) (mode : CacheKeying)
-    (hpfx : ∀ h, PfxOK IK (txHeightKey h)) (s : IState) (m : VMap) (hi : IInv K IK s m) (ops : List IOp)
-    (hops : ∀ op ∈ ops, IOpOK K IK op) (hver : s.st.version + ops.length + 1 < maxVer)
-    (v : Nat) (hv : v ≤ s.st.version) (hkeep : ∀ op ∈ ops, IKeeps v op) (h : Nat)
-    (hc : s.cache.lookup h = none) (hc' : (runIOps mode s ops).cache.lookup h = none) :
-    BlockReadStable s (runIOps mode s ops) v h := by
-  unfold BlockReadStable getBlockByHeight
-  rw [hc, hc']
-  exact (block_history_immutable K IK hK hIK mode hpfx s m hi ops hops hver v hv hkeep h []).1
 
 /-- two blocks committed at heights 1 and 2 (QC + block indexed before each commit) -/
 def twoBlocks : List IOp :=
   [.store (.set [1, 97] [1]), .indexQC 1 [0xB1], .indexBlock 1 [0xB1] [[0x71]], .store .commit,
    .store (.set [1, 97] [2]), .indexQC 2 [0xB2], .indexBlock 2 [0xB2] [], .store .commit]
 
-/-- **the cache serves uncommitted and stale blocks** (each replayed on the real store by the Go driver,
-cases `blockcache-*`, signature `C10:block-cache-serves-uncommitted-or-stale-block`):
+/-- **the cache keyed by height served uncommitted and stale blocks** (the code before commit fbabcb4;
+each sequence is a permanent corpus case of the Go driver, `blockcache-a … -f`, signature
+`C10:block-cache-serves-uncommitted-or-stale-block`, and passes on the repaired code):
 (a) after the entry for height 2 left the cache (64 other reads, or a restart), a view at version 1
 asks for height 2: its miss is cached, and the STORE ITSELF then answers an empty block for the
 committed height 2; (b) a view at version 1 is served block 2; (c) a block indexed for a commit that
 was abandoned is served to the store and to the view at version 1; (d) a header-only read replaces the
 cached block by one without its transactions. -/
-theorem block_cache_serves_uncommitted_or_stale_block :
+theorem block_cache_by_height_serves_uncommitted_or_stale_block :
     -- (a)
-    (let s := runIOps {} (twoBlocks ++ (List.range 64).map (fun i => .getBlock none (1000 + i) false) ++
+    (let s := runIOps .byHeight {} (twoBlocks ++ (List.range 64).map (fun i => .getBlock none (1000 + i) false) ++
         [.getBlock (some 1) 2 false])
      s.st.version = 2 ∧ s.live.dbBlockByHeight 2 = { hHeight := 2, hash := [0xB2], txs := [] } ∧
-     (getBlockByHeight s.cache s.live 2).1 = {}) ∧
+     (getBlockByHeight .byHeight s.cache s.live 2).1 = {}) ∧
     -- (b)
-    (let s := runIOps {} twoBlocks
-     (s.ro 1).dbBlockByHeight 2 = {} ∧ (getBlockByHeight s.cache (s.ro 1) 2).1 = { hHeight := 2, hash := [0xB2], txs := [] }) ∧
+    (let s := runIOps .byHeight {} twoBlocks
+     (s.ro 1).dbBlockByHeight 2 = {} ∧
+     (getBlockByHeight .byHeight s.cache (s.ro 1) 2).1 = { hHeight := 2, hash := [0xB2], txs := [] }) ∧
     -- (c)
-    (let s := runIOps {} (twoBlocks.take 4 ++ [.indexBlock 2 [0xEE] [], .reset])
+    (let s := runIOps .byHeight {} (twoBlocks.take 4 ++ [.indexBlock 2 [0xEE] [], .reset])
      s.st.version = 1 ∧ s.live.dbBlockByHeight 2 = {} ∧
-     (getBlockByHeight s.cache s.live 2).1 = { hHeight := 2, hash := [0xEE], txs := [] } ∧
-     (getBlockByHeight s.cache (s.ro 1) 2).1 = { hHeight := 2, hash := [0xEE], txs := [] }) ∧
+     (getBlockByHeight .byHeight s.cache s.live 2).1 = { hHeight := 2, hash := [0xEE], txs := [] } ∧
+     (getBlockByHeight .byHeight s.cache (s.ro 1) 2).1 = { hHeight := 2, hash := [0xEE], txs := [] }) ∧
     -- (d)
-    (let s := runIOps {} (twoBlocks.take 4 ++ [.purgeCache, .getBlock none 1 true])
+    (let s := runIOps .byHeight {} (twoBlocks.take 4 ++ [.purgeCache, .getBlock none 1 true])
      s.live.dbBlockByHeight 1 = { hHeight := 1, hash := [0xB1], txs := [[0x71]] } ∧
-     (getBlockByHeight s.cache s.live 1).1 = { hHeight := 1, hash := [0xB1], txs := [] }) := by
+     (getBlockByHeight .byHeight s.cache s.live 1).1 = { hHeight := 1, hash := [0xB1], txs := [] }) := by
   decide +kernel
 
-/-- hence the full-strength statement is false: between the state after `twoBlocks` (plus the eviction)
-and the state after one more READ by a historical view, the store's own answer for height 2 changes -/
-theorem block_read_not_stable :
-    let s := runIOps {} (twoBlocks ++ [.purgeCache])
-    ¬ BlockReadStable s (runIOps s [.getBlock (some 1) 2 false]) 2 2 := by
+/-- under the old keying the full-strength statement was false: one more READ by a historical view
+changed the store's own answer for a committed height -/
+theorem block_read_not_stable_by_height :
+    let s := runIOps .byHeight {} (twoBlocks ++ [.purgeCache])
+    ¬ BlockReadStable .byHeight s (runIOps .byHeight s [.getBlock (some 1) 2 false]) 2 2 := by
+  decide +kernel
+
+/-- the same four sequences on the code as it stands: every answer is the database part's -/
+theorem block_cache_by_hash_key_answers_correctly :
+    (let s := runIOps .byHashKey {} (twoBlocks ++ (List.range 64).map (fun i => .getBlock none (1000 + i) false) ++
+        [.getBlock (some 1) 2 false])
+     (getBlockByHeight .byHashKey s.cache s.live 2).1 = { hHeight := 2, hash := [0xB2], txs := [] }) ∧
+    (let s := runIOps .byHashKey {} twoBlocks
+     (getBlockByHeight .byHashKey s.cache (s.ro 1) 2).1 = {}) ∧
+    (let s := runIOps .byHashKey {} (twoBlocks.take 4 ++ [.indexBlock 2 [0xEE] [], .reset])
+     (getBlockByHeight .byHashKey s.cache s.live 2).1 = {} ∧ (getBlockByHeight .byHashKey s.cache (s.ro 1) 2).1 = {}) ∧
+    (let s := runIOps .byHashKey {} (twoBlocks.take 4 ++ [.purgeCache, .getBlock none 1 true])
+     (getBlockByHeight .byHashKey s.cache s.live 1).1 = { hHeight := 1, hash := [0xB1], txs := [[0x71]] }) ∧
+    -- (g) the store reads its own pending height after the IndexBlock entry was evicted: not cached
+    (let s := runIOps .byHashKey {} [.store (.set [1, 97] [1]), .indexBlock 1 [0xB1] [[0x71]], .purgeCache,
+        .getBlock none 1 false, .store .commit]
+     (getBlockByHeight .byHashKey s.cache s.live 1).1 = { hHeight := 1, hash := [0xB1], txs := [[0x71]] }) := by
   decide +kernel
 
 /-! ## non-vacuity -/
@@ -399,5 +444,29 @@ example :
   refine ⟨reachable_inv K2 K2_wf _ (by simp [OpOK, K2]) (by decide), by simp [OpOK, K2], by simp [KeepsHistory], ?_, ?_, ?_, ?_⟩
   all_goals simp [runOps, State.apply, State.readOnly, Handle.get, Handle.get.go, keyOK, decodeLenPrefixed]
   all_goals decide +kernel
+
+def H32 : Bytes := List.replicate 32 0xAB
+def T32 : Bytes := List.replicate 32 0x71
+
+/-- non-vacuity: a history that indexes, commits and reads a block is disciplined -/
+example : DiscRun K2 {} [.store (.set [1, 97] [5]), .indexQC 1 H32, .indexBlock 1 H32 [T32], .store .commit,
+    .getBlock (some 1) 1 false, .getBlock none 1 false] := by
+  -- set
+  refine ⟨trivial, fun o h => (by cases h; exact Or.inl rfl), ?_⟩
+  -- indexQC
+  refine ⟨(by decide : (1 : Nat) < B64), fun o h => (by cases h), ?_⟩
+  -- indexBlock: next height, fresh hash, fresh transactions, only a QC pending
+  refine ⟨⟨rfl, rfl, by simp [T32], by simp, by decide, ?_, fun w _ => rfl, fun th _ w _ => rfl, rfl⟩, fun o h => (by cases h), ?_⟩
+  · intro k op hg
+    have : smGet (smSet ([] : Overlay) (qcHeightKey 1) (.set (encQC 1 H32))) k = some op := hg
+    rw [smGet_smSet] at this
+    by_cases hk : k = qcHeightKey 1
+    · rw [if_pos hk] at this; injection this with this
+      exact ⟨1, H32, by decide, hk, this.symm⟩
+    · rw [if_neg hk] at this; cases this
+  -- commit, then reads by a view and by the store
+  refine ⟨trivial, fun o h => (by cases h; trivial), ?_⟩
+  refine ⟨⟨by decide, fun v h => (by cases h; decide)⟩, fun o h => (by cases h), ?_⟩
+  exact ⟨⟨by decide, fun v h => (by cases h)⟩, fun o h => (by cases h), trivial⟩
 
 end Canopy.C10
